@@ -28,6 +28,11 @@ if [ "$scratch" = 1 ]; then
   cp "$COQ_THEORIES"/Effects/{EffectModel,EffectsObligations,EffectsReport,EffectsCheck}.v "$root/Effects/"
 fi
 E="$root/Effects"
+if [ "$scratch" = 0 ]; then
+  # concurrent runs on the shared tree would overwrite each other's .vo files
+  exec 9> "$EFFECTS_DIR/.lock"
+  flock 9
+fi
 
 generate "$repo" "$root" 2> "$work/gen.err" || { cat "$work/gen.err" >&2; fail "translator failed on $repo"; }
 cat "$work/gen.err" >&2
@@ -37,7 +42,8 @@ coq() { # coq <file-stem> <output-file>: compile one file, output captured
 }
 
 # EffectModel.v: written once; recompiled only when stale.  Its Print Assumptions output is kept.
-if [ ! -f "$E/EffectModel.vo" ] || [ "$E/EffectModel.v" -nt "$E/EffectModel.vo" ] || [ ! -f "$E/EffectModel.out" ]; then
+if [ ! -f "$E/EffectModel.vo" ] || [ "$E/EffectModel.v" -nt "$E/EffectModel.vo" ] ||
+   [ ! -f "$E/EffectModel.out" ] || [ "$E/EffectModel.v" -nt "$E/EffectModel.out" ]; then
   coq EffectModel "$E/EffectModel.out" || { cat "$E/EffectModel.out" >&2; rm -f "$E/EffectModel.out"; fail "EffectModel.v does not compile"; }
 fi
 coq EffectsGen "$work/gen.out" || { cat "$work/gen.out" >&2; fail "the generated EffectsGen.v does not compile"; }
